@@ -66,6 +66,9 @@ def run(ctx):
     c05_3(ctx)
     c05_4(ctx)
     c05_5(ctx)
+    # no accepting path of an entry point skips signature validation (shared with C01.5)
+    from . import c01_effects
+    c01_effects.entry_points_validate(ctx, "C05.2")
 
 
 def c05_1(ctx):
